@@ -294,6 +294,61 @@ def reuse_loaded(ck, sh, mm):
         prove_paths(ck, 'reuse-loaded-%s' % gname, fn, goals, replay, timeout_ms=30000)
 
 
+def floor_scale(ck, sh, mm):
+    """The dBi table replaces gains below a floor by -999.  The pattern must not change with a common factor on the voltages, so
+    WHICH directions are cut off must not change either: the real compute_far_field runs for concrete generic currents I and power P
+    (reference) and for a I and a^2 P with an ARBITRARY positive factor a (1e-20..1e20); every path of the cut-off comparison must
+    cut off exactly the directions of the reference."""
+    from .c10 import _set_currents
+    M = sh.mininec
+    for gname in (('G1', 'G8') if ck.tier == 'quick' else ('G1', 'G8', 'G2', 'G9')):
+        objs, gnd = catalogue.spec(gname)
+        zen, azi = (25.0, 30.0, 2), (15.0, 70.0, 2)
+        m0 = catalogue.build(mm, gname)
+        n = len(m0.pulses)
+        I0 = [complex(0.004 * (1 + 0.3 * k), 0.003 * (0.5 - 0.2 * k)) for k in range(n)]
+        P0 = 0.0123
+        m0.current = np.array(I0)
+        m0.power = P0
+        m0.compute_far_field(mm.Angle(*zen), mm.Angle(*azi))
+        g0 = np.array(m0.far_field.gain, dtype=float).reshape(-1)
+
+        def fn(gname=gname, I0=I0, P0=P0, zen=zen, azi=azi):
+            a = pos('a', 1e-20, 1e20)
+            with symx.object_arrays():
+                m = catalogue.build(M, gname)
+                _set_currents(m, [SC.lift(x) * a for x in I0])
+                m.power = a * a * P0
+                m.compute_far_field(M.Angle(*zen), M.Angle(*azi))
+                g = list(np.asarray(m.far_field.gain, dtype=object).reshape(-1))
+            return dict(inputs=dict(a=a), g=g)
+
+        def goals(o, g0=g0):
+            cut, val = [], []
+            for x, y in zip(o['g'], g0):
+                is_cut = (not symx.is_sym(x)) and float(x) <= -998.0
+                cut.append(z3.BoolVal(is_cut == (y <= -998.0)))
+                if not is_cut and y > -998.0:
+                    d = SR.lift(x) - float(y)
+                    val.append(z3.And((d <= 1e-6).t, (d >= -1e-6).t))
+            # (the VALUES of the other entries are the subject of the homogeneity clause and of C10; here: which entries are cut off)
+            return [('the same directions are cut off at -999 dBi for every common factor on the voltages', z3.And(*cut))]
+
+        def replay(c, gn, out, gname=gname, I0=I0, P0=P0, zen=zen, azi=azi, g0=g0):
+            a = float(c['a'])
+            m = catalogue.build(mm, gname)
+            m.current = np.array(I0) * a
+            m.power = a * a * P0
+            m.compute_far_field(mm.Angle(*zen), mm.Angle(*azi))
+            g = np.array(m.far_field.gain, dtype=float).reshape(-1)
+            if np.allclose(g, g0, rtol=0, atol=1e-6):
+                return None
+            k = int(np.argmax(np.abs(g - g0)))
+            return ('C07:dbi-floor:%s' % gname, '%s: with all voltages (currents) multiplied by %r the dBi table entry %d changes from %r to %r'
+                    % (gname, a, k, float(g0[k]), float(g[k])), dict(kind='dbi-floor', geometry=gname, a=a))
+        prove_paths(ck, 'dbi-floor-%s' % gname, fn, goals, replay, max_paths=600, timeout_ms=20000)
+
+
 def total_power(ck, sh, mm):
     """compute() leaves in Mininec.power -- the number every dBi / V/m / near-field table is normalised with -- the sum of
     Re(V I*)/2 over the sources, for ALL complex voltages and whatever currents solve the system (the solve is replaced
@@ -420,6 +475,7 @@ def main(args):
         linear(ck, sh, mm)
         reuse(ck, sh, mm)
         reuse_loaded(ck, sh, mm)
+        floor_scale(ck, sh, mm)
         total_power(ck, sh, mm)
         source_data(ck, sh, mm)
     ck.functions = sh.entered
